@@ -7,7 +7,8 @@ git -C /repo worktree add --detach "$WT" HEAD >/dev/null 2>&1 || { echo "worktre
 if ! git -C "$WT" apply --3way "$PATCH" >/dev/null 2>&1; then
   if ! git -C "$WT" apply "$PATCH" >/dev/null 2>&1; then echo "$PATCH $ID APPLY-FAILED"; git -C /repo worktree remove --force "$WT"; exit 3; fi
 fi
-OUT=$(cd /verif && PV_REPO="$WT" ./check "$ID" --tier "$TIER" --no-evidence 2>&1)
+HERE=$(cd "$(dirname "$0")/.." && pwd)
+OUT=$(cd "$HERE" && PV_REPO="$WT" ./check "$ID" --tier "$TIER" --no-evidence 2>&1)
 CODE=$?
 echo "$PATCH $ID exit=$CODE $(echo "$OUT" | grep -m1 -A2 VIOLATION | tr '\n' ' ' | cut -c1-300) $(echo "$OUT" | grep -m1 INCONCLUSIVE | cut -c1-300)"
 git -C /repo worktree remove --force "$WT" >/dev/null 2>&1
